@@ -32,7 +32,7 @@ def examples(tier):
 
 
 def strategy(tier):
-    return gen_store.case(CLASSES, WEIGHTS, max_ops=40, macros=5, extra=3)
+    return gen_store.case(CLASSES, WEIGHTS, max_ops=40, macros=5, extra=7)
 
 
 shrink_candidates = gen_store.shrink_candidates
